@@ -14,7 +14,9 @@ CONSTANTS Devices,        \* set of devices
           Pool,           \* [Devices -> pool threads]
           Factor,         \* throttle permits = Factor * pool threads (the code: 8)
           OpenLimit,      \* open-files permits
-          FailSet         \* runs <<d, i>> whose hash fails (nothing is sent)
+          FailSet,        \* runs <<d, i>> whose hash fails (nothing is sent)
+          PermitsPerTask  \* throttle permits a task holds: 1 in the code.  RunSize (one per PATH of the run) is the variant a seeded
+                          \* change introduced: a run with more paths than Factor x pool threads can then never be spawned
 
 Task == {<<d, i>> : d \in Devices, i \in 1..5} 
 Tasks == {t \in Task : t[2] <= NRuns[t[1]]}
@@ -38,8 +40,8 @@ Init == /\ next = [d \in Devices |-> 1] /\ throttle = [d \in Devices |-> Factor 
 Running(d) == {t \in Tasks : t[1] = d /\ stage[t] \in {"wait_open", "hash", "send"}}
 InFlight(d) == {t \in Tasks : t[1] = d /\ stage[t] \in {"queued", "wait_open", "hash", "send"}}
 
-Spawn(d) == /\ next[d] <= NRuns[d] /\ throttle[d] > 0
-            /\ throttle' = [throttle EXCEPT ![d] = @ - 1]
+Spawn(d) == /\ next[d] <= NRuns[d] /\ throttle[d] >= PermitsPerTask
+            /\ throttle' = [throttle EXCEPT ![d] = @ - PermitsPerTask]
             /\ queue' = [queue EXCEPT ![d] = Append(@, <<d, next[d]>>)]
             /\ stage' = [stage EXCEPT ![<<d, next[d]>>] = "queued"]
             /\ next' = [next EXCEPT ![d] = @ + 1]
@@ -63,7 +65,7 @@ Send(t) == /\ stage[t] = "send" /\ tosend[t] > 0
            /\ UNCHANGED <<next, throttle, queue, stage, open, map, devdone, collected>>
 Finish(t) == /\ stage[t] = "send" /\ tosend[t] = 0
              /\ stage' = [stage EXCEPT ![t] = "done"]
-             /\ open' = open + 1 /\ throttle' = [throttle EXCEPT ![t[1]] = @ + 1]
+             /\ open' = open + 1 /\ throttle' = [throttle EXCEPT ![t[1]] = @ + PermitsPerTask]
              /\ UNCHANGED <<next, queue, tosend, chan, map, devdone, collected>>
 Recv == /\ chan # <<>> /\ ~collected
         /\ map' = map \cup {Head(chan)} /\ chan' = Tail(chan)
